@@ -15,7 +15,8 @@ CLAIMED = {
    text='Theorems (unbounded in data length, chunk size, overlap, number/size of files, batch size): kept parts of chunk_bounds tile the data exactly; '
         'each kept part lies inside its chunk and no chunk exceeds the chunk size; reader chunk bounds start at 0, end at n, increase strictly, contain every file boundary, gaps <= chunk; '
         'base and compressed (batch look-behind) iterators tile the recording; excerpts are in-bounds, disjoint, increasing, bounded in number and size. '
-        'Correspondence: exhaustive small grids + real flat/array/cbin readers + random large cases; the Lean executable also decides the C16 predicate on the real output.',
+        'Composition with C01 (read_by_chunks_eq_concat): reader[i0:i1] over the iterator, stacked, is the concatenated recording, for any files (empty ones included) and chunk size. '
+        'Correspondence: exhaustive small grids + real flat/array/cbin readers (header offsets, file names in non-sorted order, fractional sample rates, read chunk by chunk) + random large cases; the Lean executable also decides the C16 predicate on the real output.',
    note='chunk_size=int(round(600*sample_rate)) and the mtscomp chunk table/thread pool are outside the model (taken as inputs).',
    tech='Lean 4 theorems by loop invariant/induction over a hand-written model + differential correspondence against /repo', ref='§5 C16'),
 }
@@ -48,7 +49,7 @@ CLAIMED['C20'] = dict(
    tech='Lean 4 theorems by exhaustive case analysis of the decision tree (symbolic in hash and script tails) + differential correspondence against /repo', ref='§5 C20')
 CLAIMED['C02'] = dict(
    text='Theorems parametric in what each operator computes (any element-wise functions, any channel selections, any order, any cell type): indexing a reader carrying deferred operations = applying them to the concatenated array, then indexing (composition with the C01 theorem), also with a trailing channel selector; deriving gives the clone the parent\'s operations plus one and, for every derivation history (parents, siblings, grandchildren), leaves the operations of every existing reader untouched (heap model of _append_op). '
-        'Correspondence: all operator chains of depth <= 2/3 over the 14 dunders + column selection with int/float scalars, random derivation trees with parents re-read after every derivation, on flat/npy/array/cbin and 6 dtypes; value AND dtype compared with eager NumPy; the Lean model supplies which cells and which operators in which order.',
+        'Correspondence: all operator chains of depth <= 2/3 over the 14 dunders + column selection (slices, index lists, boolean masks) with Python / NumPy-scalar / 0-d array operands on either side, base data at the dtype extremes, random derivation trees with parents re-read after every derivation, on flat/npy/array/cbin and 6 dtypes; value AND dtype compared with eager NumPy; the Lean model supplies which cells and which operators in which order.',
    note='Operator semantics and result dtypes are NumPy\'s (not modelled: the theorem is parametric); float pow restricted to exponents {0,1,2}; histories on which eager NumPy raises are discarded.',
    tech='Lean 4 theorems (map/commutation lemmas, heap frame invariant by induction over derivations) + differential correspondence against /repo', ref='§5 C02')
 CLAIMED['C17'] = dict(
@@ -73,7 +74,8 @@ CLAIMED['C11'] = dict(
    tech='Lean 4 theorems (stable insertion sort: permutation, sortedness, stability; prefix-sum offsets) + differential correspondence against /repo', ref='§5 C11')
 CLAIMED['C12'] = dict(
    text='Theorems for any number of probes with any channel/template counts: channel offsets = summed channel counts (permutation maps); merged channel map/probe labels are contiguous blocks in input order; positions translated along x only and (>= 2 distinct x per probe, non-negative coordinates) strictly apart; template t of probe k at row toff_k + t on columns of block k, zeros elsewhere; index tables shifted by per-probe offsets; block_diag entries; params. '
-        'Correspondence: the same real merges as C11 with distinct tokens per template cell, forced 3-probe cases of different sizes, int32/int64/uint32 tables, optional matrices in some probes. One OPEN known finding (single-x-column probes not kept apart).',
+        'For ARBITRARY channel maps (gaps, dead channels) the channel-index table lands in the merged channel numbering (pc_ind_in_block: shifted by channel counts, labelled with probe k, naming the same shifted raw channel). '
+        'Correspondence: the same real merges as C11 with distinct tokens per template cell, forced 3-probe cases of different sizes, maps with gaps, narrow/unsigned table dtypes, integer-typed coordinates, optional matrices in some probes, second merge in the same process. One OPEN known finding (single-x-column probes not kept apart).',
    note='scipy block_diag modelled by a list definition; index tables must be present in every probe (Merger requires them).',
    tech='Lean 4 theorems by induction over the probe list with running offsets + differential correspondence against /repo', ref='§5 C12')
 CLAIMED['C08'] = dict(
@@ -104,17 +106,17 @@ CLAIMED['C18'] = dict(
 CLAIMED['C13'] = dict(
    text='Theorems (decision logic stated outright): every object table written has the number of spikes / clusters / templates / channels of its family as first dimension, with or without label; the label is inserted before the extension of every such file and only there; one identifier row per cluster; conversion into the source directory is refused. '
         'The round trip (times, samples, clusters, templates, channel map, positions of the returned AND a freshly loaded model equal the source), seconds-vs-samples, identifier uniqueness and byte-identity of the source (apart from temp_wh.dat and the subset files) are established by the correspondence run on real conversions of generated datasets (raw/no raw, features, curated, probe table, KSLabel, (n,1) vectors, labels, merged sources).',
-   note='PARTIAL: the Lean theorems are shallow (file table + naming); the load-back and frame clauses rest on the sampled correspondence; uuid4 uniqueness assumed.',
+   note='PARTIAL: file table + naming + the load-back of the spike-level arrays through the C04 loader model for ANY label (reload_eq_source) are theorems; template waveforms after reload and the frame clauses rest on the sampled correspondence; uuid4 uniqueness assumed; re-export over an existing output directory exercised without label only.',
    tech='Lean 4 theorems over a file-table model + differential correspondence (real convert + reload + directory hashes) against /repo', ref='§5 C13')
 CLAIMED['C14'] = dict(
-   text='Theorems: exporting raw channel indices of a dataset merged from ANY number of probes (permutation maps) gives back each probe\'s original channel map (composition with the C12 merge model); listed channels are distinct channels of the peak\'s probe in non-decreasing L1 distance, peak first, no unlisted same-probe channel strictly closer; exported waveform column j is the waveform on listed channel j; cluster depth = depth of the peak channel, NaN for ids without spikes. Amplitude / rescaling / duration / feature-depth formulas are the C09 theorems. '
+   text='Theorems: exporting raw channel indices of a dataset merged from ANY number of probes (permutation maps) gives back each probe\'s original channel map for arbitrary NON-EMPTY channel maps, gaps and duplicates included (composition with the C12 merge model); listed channels are distinct channels of the peak\'s probe in non-decreasing L1 distance, peak first, no unlisted same-probe channel strictly closer; exported waveform column j is the waveform on listed channel j; cluster depth = depth of the peak channel, NaN for ids without spikes. Amplitude / rescaling / duration / feature-depth formulas are the C09 theorems. '
         'Correspondence: real conversions of single datasets (values of templates.*, clusters.*, spikes.amps/depths vs the exact C09/C14 models) and of datasets merged from 1..4 probes (raw indices, listed channels).',
    note='Float32 outputs compared with relative tolerance 1e-6, multi-step float64 chains with 1e-9; on merged sources only the index bookkeeping is claimed (large token values are not exact in float32).',
    tech='Lean 4 composition theorem (merge then export = identity on channel maps) + sort lemmas + differential correspondence against /repo', ref='§5 C14')
 CLAIMED['C04'] = dict(
    text='Theorems over all directories: first matching name wins (and no earlier pattern matches anything); a successful load leaves every pre-existing file unchanged and creates nothing except the spike-cluster copy and the inverse whitening matrix, each exactly when missing; non-monotonic spike times are rejected; NaN/inf are scrubbed to zero in fully loaded arrays with finite cells and shape kept; without a cluster file the loaded clusters are the loaded templates and the created file is a byte copy of the template file. The attribute table (which file, which transform, which default) is the definition of the model and is tied to the real loader by the correspondence run. '
         'Correspondence: generated KS / ALF directories over the whole presence/absence matrix, (n,1) vectors, dtypes, NaN/inf incl. all-NaN templates, sparse templates, extra per-spike attributes, raw data wider than the channel map, non-monotonic times; every public attribute + directory hashes before/after.',
-   note='PARTIAL: the value part is decision logic (shallow theorems); np.linalg.inv opaque (wm . wmi = I checked numerically); memmap/glob transport; stored dimensions of size 1 are out of scope.',
+   note='PARTIAL: the value part is decision logic (shallow theorems) plus layout independence (load_layout_independent: a KiloSort-named directory and the ALF-named directory holding the same arrays load to the same view); np.linalg.inv opaque (wm . wmi = I and the contents of the created file checked numerically); memmap/glob transport; stored dimensions of size 1 are out of scope.',
    tech='Lean 4 theorems (frame theorem over a finite-map directory model, first-match lemma) + differential correspondence against /repo', ref='§5 C04')
 REASONS = {}
 
